@@ -53,6 +53,17 @@ func (e *Engine) libType(pkg, name string) types.Type {
 	return p.Type(name).Type()
 }
 
+func (e *Engine) libTypeLocal(name string) types.Type {
+	for _, p := range e.prog.AllPackages() {
+		if p.Pkg.Path() == e.pkgPath {
+			if t := p.Type(name); t != nil {
+				return t.Type()
+			}
+		}
+	}
+	panic(engineErr("type %s not found in %s", name, e.pkgPath))
+}
+
 func (e *Engine) atom(tag byte, id int) *StrVal {
 	return &StrVal{B: []*Term{e.tb.BVConst(uint64(tag), 8), e.tb.BVConst(uint64(id), 64)}}
 }
